@@ -65,6 +65,27 @@ theorem c11_covered (s : App) : s.updateBondedPool.bonded ≥ sumInts (s.dels.ma
   rw [this]
   split <;> omega
 
+/-- the top-up is idempotent: a second `UpdateBondedPoolPower` with no delegation change in between mints nothing
+    (every PoA handler calls it; several PoA messages in one block therefore mint the shortfall once) -/
+theorem c11_topup_idempotent (s : App) : s.updateBondedPool.updateBondedPool = s.updateBondedPool := by
+  have hd : s.updateBondedPool.dels = s.dels := by
+    unfold updateBondedPool; dsimp only; split <;> rfl
+  have hc := c11_covered s
+  rw [← hd] at hc
+  generalize s.updateBondedPool = t at hc
+  unfold updateBondedPool
+  dsimp only
+  split
+  · omega
+  · rfl
+
+/-- it never burns: supply and bonded pool are monotone under it (the decrease half of C11's clause is therefore
+    never performed by PoA — finding D9a) -/
+theorem c11_topup_never_burns (s : App) :
+    s.updateBondedPool.supply ≥ s.supply ∧ s.updateBondedPool.bonded ≥ s.bonded := by
+  obtain ⟨h1, h2, _⟩ := c11_topup s
+  rw [h1] at h2 ⊢
+  split at h2 <;> split <;> omega
 /-- pool transfers at EndBlock conserve the sum of the two pools and leave the supply alone -/
 theorem c11_movePools (s s' : App) (a b : Int) (h : s.movePools a b = .ok s') :
     s'.bonded + s'.notBonded = s.bonded + s.notBonded ∧ s'.supply = s.supply := by
